@@ -403,6 +403,11 @@ func (f Slice) startEndStep(size int) (start, end, step int) {
 			return
 		}
 	}
+	if size <= 0 {
+		// Nothing to select. A start of -1 or 0 would index an empty array.
+		step = 0
+		return
+	}
 	if start < 0 {
 		start = size + start
 	} else if size <= start {
